@@ -333,6 +333,13 @@ def _add(bundle: Bundle, val: BundleAttr) -> BundleAttr:
                 ctr.pop(val.name)
         old._parent_bundle = None
 
+    # If `val` itself is already held under another name, it moves to its new one
+    for key in [k for k, held in bundle.namespace.items() if held is val and k != val.name]:
+        bundle.namespace.pop(key)
+        for ctr in (bundle.signals, bundle.bundles):
+            if ctr.get(key, None) is val:
+                ctr.pop(key)
+
     # Add it to the bundle namespace, and the type-specific container
     type_ctr[val.name] = val
     bundle.namespace[val.name] = val
